@@ -749,3 +749,6 @@ HARNESSES = [
                     "thorough": [dict({"ref": r, "solutes": so}, **({"N": 2, "sigma": "cycle", "_opts": {"ob_timeout": 60.0}} if len(so) > 2 else {"N": 3}))
                                  for r, so in _NAMESETS]}),
 ]
+
+from harness.c11_extra import EXTRA as _EXTRA
+HARNESSES = HARNESSES + _EXTRA
